@@ -13,7 +13,7 @@ from vf.xmodel import Schema, Rop, build_api, build_loader
 
 SHARDS = {'quick': 16, 'thorough': 32}
 TIMEOUT = {'quick': 900, 'thorough': 5400}
-MUST_HIT = ['SortOracle.mixed-subset-termination', 'SortOracle.chains', 'SortOracle.ring', 'StepBudget.guarded-calls', 'SortOracle.subset-termination']
+MUST_HIT = ['SortOracle.after-edit-history', 'SortOracle.mixed-subset-termination', 'SortOracle.chains', 'SortOracle.ring', 'StepBudget.guarded-calls', 'SortOracle.subset-termination']
 MUST_REACH = ['xtuml/meta.py:sort_reflexive', 'xtuml/meta.py:sort_reflexive.<locals>.sequence_generator']
 ANCHORS = MUST_REACH
 MIN_NONTRIVIAL = {'quick': 500, 'thorough': 500}
@@ -116,8 +116,49 @@ def call_sort(budget, qs, n, phrase):
 
 
 def check_chains(ctx, budget, n, chains, route, order):
-    import xtuml
     m, insts = build(n, chains, False, route)
+    verify_chains(ctx, budget, insts, n, chains, order)
+
+
+def check_edited(ctx, budget, rng, n, route):
+    '''
+    The sorted population is reached through an edit history: arrangement A is built, then turned
+    into arrangement B by unrelating and relating (chains split, joined, members moved, a ring opened).
+    '''
+    import xtuml
+    def random_chains():
+        perm = list(range(n))
+        rng.shuffle(perm)
+        chains, cur = [], [perm[0]]
+        for x in perm[1:]:
+            if rng.random() < 0.4:
+                chains.append(tuple(cur))
+                cur = [x]
+            else:
+                cur.append(x)
+        chains.append(tuple(cur))
+        return chains
+    a, b = random_chains(), random_chains()
+    ring = rng.random() < 0.3
+    m, insts = build(n, a, False, route)
+    la = set((x, y) for c in a for x, y in zip(c, c[1:]))
+    if ring and len(a[0]) > 1:
+        xtuml.relate(insts[a[0][-1]], insts[a[0][0]], 1, 'precedes')
+        la.add((a[0][-1], a[0][0]))
+    lb = set((x, y) for c in b for x, y in zip(c, c[1:]))
+    for (x, y) in sorted(la - lb):
+        xtuml.unrelate(insts[x], insts[y], 1, 'precedes')
+    for (x, y) in sorted(lb - la):
+        xtuml.relate(insts[x], insts[y], 1, 'precedes')
+    ctx.hit('SortOracle.after-edit-history')
+    order = list(range(n))
+    rng.shuffle(order)
+    verify_chains(ctx, budget, insts, n, tuple(b), order)
+    return a, b
+
+
+def verify_chains(ctx, budget, insts, n, chains, order):
+    import xtuml
     idx = dict((id(x), i) for i, x in enumerate(insts))
     members = [insts[i] for i in order]
     for phrase in ('succeeds', 'precedes'):
@@ -247,6 +288,14 @@ def run(ctx):
     if ctx.shard == 0:
         ctx.sample(dict(kind='chains', n=5, arrangement=[[0, 3], [1], [2, 4]],
                         meaning='0 precedes 3; 2 precedes 4; sorted across succeeds and precedes'))
+    # populations reached through an edit history
+    for i in range(ctx.share(1600 if ctx.tier == 'quick' else 60000)):
+        n = rng.randint(2, 7)
+        try:
+            a, b = check_edited(ctx, budget, rng, n, 'loader' if i % 37 == 0 else 'api')
+            ctx.case(('edit', tuple(a), tuple(b)), True)
+        except Mismatch as e:
+            ctx.violation(e.key, e.what, case=dict(kind='edited', n=n))
     # random larger sets
     for i in range(ctx.share(60 if ctx.tier == 'quick' else 1500)):
         n = rng.randint(8, 300)
